@@ -641,7 +641,7 @@ struct Gen {
 /// (absolute-in-root path, kind): 'f' existing file, 'd' directory, 'm' missing with existing parent,
 /// 'n' below a regular file, 'p' missing parent directory, 'q' existing file or directory (or an error)
 /// named through `.`, `..`, a doubled slash or a regular file used as a directory, 'z' `<regular file>/.`
-/// (catalogued divergence D12: only class `filedot` uses it)
+/// (ENOTDIR; was divergence D12 until fixed)
 const TARGETS: [(&str, char); 27] = [
     ("f1", 'f'),
     ("f2", 'f'),
@@ -692,22 +692,18 @@ impl Gen {
         (parts.join("/"), ups > 0)
     }
 
-    /// a target; `<file>/.` only in class `filedot`
+    /// a target
     fn target(&mut self) -> (&'static str, char) {
         loop {
             let t = *self.rng.pick(&TARGETS);
-            if t.1 != 'z' || self.class == "filedot" {
-                return t;
-            }
+            // `<regular file>/.` was the divergence D12 (fixed in /repo): an ordinary target now
+            return t;
         }
     }
 
-    /// `opendir` on a path that is not a directory while the table may be full answers ENOTDIR/ENOENT on
-    /// the simulator and EMFILE on Linux (catalogued divergence D13: only class `lsfull` goes there)
     fn push_ls(&mut self, path: &str) {
-        if self.upper < self.limit || self.class == "lsfull" {
-            self.ops.push(format!("ls {path}"));
-        }
+        // `opendir` at a full table was the divergence D13 (fixed in /repo): no restriction any more
+        self.ops.push(format!("ls {path}"));
     }
 
     fn some_fd(&mut self) -> i64 {
@@ -1259,8 +1255,8 @@ const FRAGMENTS: [(&str, &str); 68] = [
     ("clean", "umask @U; x%=$(alias >cu%; umask); typeset -p x%; umask 644"),
     ("clean", "cd d1/dd; (alias >deep2%; typeset -p PWD >pw%); cd ../.."),
     ("clean", "alias <f1/../f2; s=$?; typeset -p s; alias >>f1/..; s=$?; typeset -p s; cd f1/..; s=$?; typeset -p s; cd f1/.; s=$?; typeset -p s"),
-    ("filedot", "alias <f1/.; s=$?; typeset -p s; read -r l <d1/g/.; s=$?; typeset -p s l"),
-    ("filedot", "for i in f*/. d1/g*/.; do typeset -p i; done"),
+    ("clean", "alias <f1/.; s=$?; typeset -p s; read -r l <d1/g/.; s=$?; typeset -p s l"),
+    ("clean", "for i in f*/. d1/g*/.; do typeset -p i; done"),
     ("clean", "for i in d[12]/. d[12]/.. f*/.. d1/*/.. d1/g/.; do typeset -p i; done"),
     ("clean", "read -r a <d1/./g; read -r b <d1/dd/../g; read -r c <d2/../f1; typeset -p a b c; typeset -p a >>d1/dd/../g; read -r l <d1/g; typeset -p l"),
     ("clean", "(ulimit -n 4; alias <f1 >t%; s=$?; typeset -p s; alias <f1 >>f2 2>nf%; s=$?; typeset -p s); read -r l <f1; typeset -p l"),
